@@ -1,9 +1,200 @@
-// ip6 family — nothing modelled yet (stub)
+// Ip6 family: IPv6 with its extension headers
+// Field names, order and value formats are those of lean/TinsModel/Wire/Ip6/Ipv6.lean `fields`.
 #pragma once
 #include "wire_iface.h"
 namespace wire {
-inline bool ip6_dump(const PDU&, std::string&) { return false; }
-inline PDU* ip6_mk(const std::string&, const std::vector<std::string>&) { return 0; }
-inline bool ip6_apply(PDU&, const std::vector<std::string>&) { return false; }
-inline bool ip6_sweep(const PDU&, std::string&) { return false; }
+
+inline unsigned long ip6_num(const std::string& s) { return std::stoul(s); }
+inline bool ip6_hex(const std::string& s, bytes& out) { return vh::parse_hex(s, out); }
+
+// IPv6::get_padding_size is private: the same arithmetic, on the public data_size()
+inline size_t ip6_padding(const IPv6::ext_header& h) {
+    const size_t p = (h.data_size() + 2) % 8;
+    return p == 0 ? 0 : 8 - p;
+}
+
+inline std::string ip6_opts_str(const std::vector<IPv6::header_option_type>& opts) {
+    if (opts.empty()) return "none";
+    std::ostringstream o;
+    for (size_t i = 0; i < opts.size(); ++i) {
+        if (i) o << "+";
+        o << unsigned(opts[i].first) << "." << vh::to_hex(opts[i].second);
+    }
+    return o.str();
+}
+
+// typed decoders on the first header of the given type ("nf" = no such header)
+inline std::string ip6_hbh(const IPv6& ip) {
+    const IPv6::ext_header* h = ip.search_header(IPv6::HOP_BY_HOP);
+    if (!h) return "nf";
+    try { return ip6_opts_str(IPv6::hop_by_hop_header::from_extension_header(*h).options); }
+    catch (const invalid_ipv6_extension_header&) { return "invalid"; }
+}
+inline std::string ip6_dst(const IPv6& ip) {
+    const IPv6::ext_header* h = ip.search_header(IPv6::DESTINATION_OPTIONS);
+    if (!h) return "nf";
+    try { return ip6_opts_str(IPv6::destination_routing_header::from_extension_header(*h).options); }
+    catch (const invalid_ipv6_extension_header&) { return "invalid"; }
+}
+inline std::string ip6_routing(const IPv6& ip) {
+    const IPv6::ext_header* h = ip.search_header(IPv6::ROUTING);
+    if (!h) return "nf";
+    try {
+        IPv6::routing_header r = IPv6::routing_header::from_extension_header(*h);
+        std::ostringstream o;
+        o << unsigned(r.routing_type) << "." << unsigned(r.segments_left) << "." << vh::to_hex(r.data);
+        return o.str();
+    } catch (const malformed_packet&) { return "malformed"; }
+}
+inline std::string ip6_fragment(const IPv6& ip) {
+    const IPv6::ext_header* h = ip.search_header(IPv6::FRAGMENT);
+    if (!h) return "nf";
+    try {
+        IPv6::fragment_header r = IPv6::fragment_header::from_extension_header(*h);
+        std::ostringstream o;
+        o << unsigned(r.fragment_offset) << "." << (r.more_fragments ? 1 : 0) << "." << (unsigned long)r.identification;
+        return o.str();
+    } catch (const malformed_packet&) { return "malformed"; }
+}
+
+inline bool ip6_dump(const PDU& p, std::string& out) {
+    if (p.pdu_type() != PDU::IPv6) return false;
+    const IPv6& ip = static_cast<const IPv6&>(p);
+    // next_header(): the payload's tag without extension headers ("^"); with them write_serialization overwrites it with
+    // the first header's type ("~": derived)
+    // headers: type + data as it is on the wire (zero padded to the 8-octet boundary); ~hdr_raw: length field / data size
+    std::string hs, raw;
+    for (IPv6::headers_type::const_iterator it = ip.headers().begin(); it != ip.headers().end(); ++it) {
+        if (!hs.empty()) { hs += ","; raw += ","; }
+        bytes d(it->data_ptr(), it->data_ptr() + it->data_size());
+        d.resize(d.size() + ip6_padding(*it), 0);
+        std::ostringstream o, r;
+        o << unsigned(it->option()) << ":" << vh::to_hex(d);
+        r << it->length_field() << "." << it->data_size();
+        hs += o.str();
+        raw += r.str();
+    }
+    if (hs.empty()) { hs = "-"; raw = "-"; }
+    out = FieldDump().num("version", unsigned(ip.version())).num("traffic_class", ip.traffic_class())
+              .num("flow_label", uint32_t(ip.flow_label())).num("~payload_length", ip.payload_length())
+              .num(ip.headers().empty() ? "^next_header" : "~next_header", ip.next_header()).num("hop_limit", ip.hop_limit())
+              .str("src_addr", hex_of(ip.src_addr())).str("dst_addr", hex_of(ip.dst_addr()))
+              .str("headers", hs).str("~hdr_raw", raw)
+              .str("hop_by_hop", ip6_hbh(ip)).str("dest_opts", ip6_dst(ip))
+              .str("routing", ip6_routing(ip)).str("fragment", ip6_fragment(ip)).done();
+    return true;
+}
+
+inline PDU* ip6_mk(const std::string& cls, const std::vector<std::string>& a) {
+    if (cls != "IPv6") return 0;
+    if (a.size() == 2) {
+        bytes d, s;
+        if (!ip6_hex(a[0], d) || !ip6_hex(a[1], s) || d.size() != 16 || s.size() != 16) return 0;
+        return new IPv6(IPv6Address(d.data()), IPv6Address(s.data()));
+    }
+    return new IPv6();
+}
+
+inline bool ip6_apply(PDU& p, const std::vector<std::string>& op) {
+    if (p.pdu_type() != PDU::IPv6) return false;
+    IPv6& ip = static_cast<IPv6&>(p);
+    const size_t n = op.size();
+    if (n == 3 && op[0] == "add_header") {               // add_header(ext_header&&) (inline emplace_back)
+        bytes b;
+        if (!ip6_hex(op[2], b)) return false;
+        ip.add_header(IPv6::ext_header(uint8_t(ip6_num(op[1])), b.begin(), b.end()));
+        return true;
+    }
+    if (n == 3 && op[0] == "add_header_copy") {          // add_header(const ext_header&)
+        bytes b;
+        if (!ip6_hex(op[2], b)) return false;
+        const IPv6::ext_header h(uint8_t(ip6_num(op[1])), b.begin(), b.end());
+        ip.add_header(h);
+        return true;
+    }
+    if (n == 3 && op[0] == "add_ext_header") {           // deprecated alias
+        bytes b;
+        if (!ip6_hex(op[2], b)) return false;
+        const IPv6::ext_header h(uint8_t(ip6_num(op[1])), b.begin(), b.end());
+#pragma GCC diagnostic push
+#pragma GCC diagnostic ignored "-Wdeprecated-declarations"
+        ip.add_ext_header(h);
+#pragma GCC diagnostic pop
+        return true;
+    }
+    if (n == 3 && op[0] == "add_header_ptr") {           // the (type, length, pointer) constructor the parser uses
+        bytes b;
+        if (!ip6_hex(op[2], b)) return false;
+        static const uint8_t dummy = 0;
+        ip.add_header(IPv6::ext_header(uint8_t(ip6_num(op[1])), b.size(), b.empty() ? &dummy : b.data()));
+        return true;
+    }
+    if (n == 4 && op[0] == "add_header_len") {           // (type, length field, begin, end): spoofed length field
+        bytes b;
+        if (!ip6_hex(op[3], b)) return false;
+        ip.add_header(IPv6::ext_header(uint8_t(ip6_num(op[1])), uint16_t(ip6_num(op[2])), b.begin(), b.end()));
+        return true;
+    }
+    if (n != 2) return false;
+    if (op[0] == "version") { ip.version(small_uint<4>(uint8_t(ip6_num(op[1]) & 15))); return true; }
+    if (op[0] == "traffic_class") { ip.traffic_class(uint8_t(ip6_num(op[1]))); return true; }
+    if (op[0] == "flow_label") { ip.flow_label(small_uint<20>(uint32_t(ip6_num(op[1]) & 0xfffff))); return true; }
+    if (op[0] == "payload_length") { ip.payload_length(uint16_t(ip6_num(op[1]))); return true; }
+    if (op[0] == "next_header") { ip.next_header(uint8_t(ip6_num(op[1]))); return true; }
+    if (op[0] == "hop_limit") { ip.hop_limit(uint8_t(ip6_num(op[1]))); return true; }
+    if (op[0] == "src_addr" || op[0] == "dst_addr") {
+        bytes b;
+        if (!ip6_hex(op[1], b) || b.size() != 16) return false;
+        if (op[0] == "src_addr") ip.src_addr(IPv6Address(b.data()));
+        else ip.dst_addr(IPv6Address(b.data()));
+        return true;
+    }
+    return false;
+}
+
+// read-only accessors that can fail: search_header for every identifier, and every typed decoder on every header present
+// (a decoder applied to a header of another type throws invalid_ipv6_extension_header)
+inline bool ip6_sweep(const PDU& p, std::string& out) {
+    if (p.pdu_type() != PDU::IPv6) return false;
+    const IPv6& ip = static_cast<const IPv6&>(p);
+    static const int ids[] = {0, 43, 44, 50, 51, 59, 60, 135};
+    sweep_item(out, "search_header", [&] {
+        for (size_t i = 0; i < sizeof(ids) / sizeof(ids[0]); ++i) {
+            const IPv6::ext_header* h = ip.search_header(IPv6::ExtensionHeader(ids[i]));
+            if (h && h->option() != ids[i]) throw std::logic_error("search_header returned another type");
+        }
+    });
+    // IPv6::extract_metadata on every prefix (up to 72 bytes) of this packet's serialization, each in an exact-size heap
+    // block; libtins exceptions only
+    sweep_item(out, "extract_metadata", [&] {
+        std::unique_ptr<PDU> c(ip.clone());
+        bytes b = c->serialize();
+        for (size_t n = 0; n <= b.size() && n <= 72; ++n) {
+            std::unique_ptr<uint8_t[]> blk(new uint8_t[n ? n : 1]);
+            if (n) memcpy(blk.get(), b.data(), n);
+            try { IPv6::extract_metadata(blk.get(), uint32_t(n)); } catch (const malformed_packet&) {}
+        }
+    });
+    for (IPv6::headers_type::const_iterator it = ip.headers().begin(); it != ip.headers().end(); ++it) {
+        sweep_item(out, "hdr.hop_by_hop", [&] { IPv6::hop_by_hop_header::from_extension_header(*it); });
+        sweep_item(out, "hdr.dest_routing", [&] { IPv6::destination_routing_header::from_extension_header(*it); });
+        sweep_item(out, "hdr.routing", [&] { IPv6::routing_header::from_extension_header(*it); });
+        sweep_item(out, "hdr.fragment", [&] { IPv6::fragment_header::from_extension_header(*it); });
+        // the decoders look at the type only first: run them on a retyped copy so that every decoder sees every data block
+        sweep_item(out, "data.options", [&] {
+            IPv6::ext_header c(*it); c.option(IPv6::HOP_BY_HOP);
+            IPv6::hop_by_hop_header::from_extension_header(c);
+        });
+        sweep_item(out, "data.routing", [&] {
+            IPv6::ext_header c(*it); c.option(IPv6::ROUTING);
+            IPv6::routing_header::from_extension_header(c);
+        });
+        sweep_item(out, "data.fragment", [&] {
+            IPv6::ext_header c(*it); c.option(IPv6::FRAGMENT);
+            IPv6::fragment_header::from_extension_header(c);
+        });
+    }
+    return true;
+}
+
 } // namespace wire
